@@ -23,3 +23,4 @@ import TssVerif.Props.C18
 import TssVerif.Props.C19
 import TssVerif.Props.C20
 import TssVerif.Props.C04b
+import TssVerif.Props.C05b
